@@ -10,7 +10,7 @@
 (* reference semantics (JV.NumOK) on every test value; the same units are    *)
 (* written to UnitsFile and replayed against the real generator.             *)
 (***************************************************************************)
-EXTENDS Bounds, Json, SequencesExt
+EXTENDS Bounds, Units, Json, SequencesExt
 
 CONSTANTS UnitsFile,   \* where the enumerated units are written ("" = do not write)
           Devs         \* open deviations (from known_findings.json)
@@ -24,10 +24,10 @@ Off == [on |-> FALSE]
 On(v) == [on |-> TRUE, v |-> v]
 
 \* four constants: all relative orders and ties of up to four bounds occur
-VInt == {-2, 0, 2, 4}      \* -1, 0, 1, 2
-VNum == {-1, 0, 1, 3}      \* -0.5, 0, 0.5, 1.5
+VInt == {-4, 0, 4, 8}      \* -1, 0, 1, 2          (quarters)
+VNum == {-2, 0, 1, 6}      \* -0.5, 0, 0.25, 1.5
 V(t_) == IF t_ = "integer" THEN VInt ELSE VNum
-Mults(t_) == IF t_ = "integer" THEN {2, 4, 6} ELSE {1, 2, 3}
+Mults(t_) == IF t_ = "integer" THEN {4, 8, 12} ELSE {1, 2, 6}   \* 1,2,3 / 0.25,0.5,1.5
 
 Incl(t_) == {Off} \cup {On(v) : v \in V(t_)}
 Excl(t_) == {Off, On([k |-> "b", b |-> TRUE]), On([k |-> "b", b |-> FALSE])}
@@ -35,8 +35,6 @@ Excl(t_) == {Off, On([k |-> "b", b |-> TRUE]), On([k |-> "b", b |-> FALSE])}
 MultS(t_) == {Off} \cup {On(m) : m \in Mults(t_)}
 
 Field(k, o) == IF o.on THEN k :> o.v ELSE <<>>
-
-Positions == {"req", "opt", "nullopt", "nullreq", "defreq", "defopt"}
 
 NumSchema(t_, nullable, mn, mx, emn, emx, ml) ==
   ("type" :> (IF nullable THEN <<t_, "null">> ELSE <<t_>>))
@@ -46,35 +44,26 @@ NumSchema(t_, nullable, mn, mx, emn, emx, ml) ==
 
 \* The unit: an object with the single property "x" holding the numeric schema at the position.
 Unit(ty_, pos_, min_, max_, emin_, emax_, mult_) ==
-  LET nullable == pos_ \in {"nullopt", "nullreq"}
-      viaDef   == pos_ \in {"defreq", "defopt"}
-      req      == pos_ \in {"req", "nullreq", "defreq"}
-      ns       == NumSchema(ty_, nullable, min_, max_, emin_, emax_, mult_)
-      xs       == IF viaDef THEN [ref |-> [k |-> "defs", n |-> "N"]] ELSE ns
-      lo       == (CHOOSE m \in V(ty_) : \A w \in V(ty_) : m <= w) - 2
-      hi       == (CHOOSE m \in V(ty_) : \A w \in V(ty_) : m >= w) + 2
-      vals     == [i \in 1..(hi - lo + 1) |-> JObj(<<KV("x", JNum(lo + i - 1))>>)]
-  IN [prop   |-> "C05",
-      pos    |-> pos_,
-      schema |-> ("type" :> <<"object">>) @@ ("properties" :> <<[k |-> "x", s |-> xs]>>)
-                 @@ (IF req THEN "required" :> <<"x">> ELSE <<>>),
-      defs   |-> IF viaDef THEN <<[k |-> "N", s |-> ns]>> ELSE <<>>,
-      docs   |-> vals \o <<JObj(<<>>), JObj(<<KV("x", JNull)>>)>>]
+  LET \* integer: every integer from below the smallest to above the largest constant plus two
+      \* non-integral values; number: every quarter step
+      step     == IF ty_ = "integer" THEN 4 ELSE 1
+      lo       == (CHOOSE m \in V(ty_) : \A w \in V(ty_) : m <= w) - 2 * step
+      hi       == (CHOOSE m \in V(ty_) : \A w \in V(ty_) : m >= w) + 2 * step
+      grid     == [i \in 1..((hi - lo) \div step + 1) |-> JNum(lo + (i - 1) * step)]
+      vals     == IF ty_ = "integer" THEN grid \o <<JNum(2), JNum(-3)>> ELSE grid
+      leaf     == NumSchema(ty_, FALSE, min_, max_, emin_, emax_, mult_)
+      \* a default that satisfies the leaf, if the grid holds one (else the position degenerates to "opt")
+      okv      == {i \in DOMAIN grid : NumOK(leaf, grid[i], {})}
+      p        == IF pos_ = "optdefault" /\ okv = {} THEN "opt" ELSE pos_
+      dflt     == IF okv = {} THEN JNull ELSE grid[CHOOSE i \in okv : \A j \in okv : i <= j]
+  IN PosUnit("C05", p, leaf, vals, dflt)
 
 u == Unit(ty, pos, b[1], b[2], b[3], b[4], mult)
 Set == b # <<>>
 
 (* ---- design-level check: the implementation-shaped model against the reference ---- *)
-XSchema(unit) == IF unit.defs = <<>> THEN unit.schema.properties[1].s ELSE unit.defs[1].s
-
-\* what the generated code does with document d of the unit (x absent or null: no check runs)
-ImplAccepts(unit, d, D) ==
-  IF ~ObjHas(d, "x") THEN "x" \notin Required(unit.schema)      \* requiredValidator on the raw map
-  ELSE IF ObjVal(d, "x").t = "null" THEN TRUE                   \* nil pointer / zero value: no check
-  ELSE /\ (Main(XSchema(unit)) = "integer" => IsIntegral(ObjVal(d, "x")))  \* encoding/json typed decode
-       /\ ImplNumAccepts(XSchema(unit), ObjVal(d, "x"), D)
-
-RefVerdict(unit, d) == Valid(unit.defs, unit.schema, d, {}, "decl", NoLim)
+\* what the generated code does with document d of the unit
+ImplAccepts(unit, d, D) == ImplPos(unit, d, LAMBDA v : ImplNumAccepts(Leaf(unit), v, D))
 
 \* the intended design satisfies C05 on every unit and test value
 DesignOK == Set =>
@@ -82,10 +71,11 @@ DesignOK == Set =>
      LET r == RefVerdict(u, u.docs[i]) IN
      r # Un => (ImplAccepts(u, u.docs[i], {}) <=> r = Acc)
 
-\* the model of the tree as it is (open deviations) -- must hold too unless Devs names a C05 defect
+\* the two placements of the open deviations agree: switches inside the implementation-shaped model
+\* (Bounds) and switches inside the reference semantics (JV.Valid) predict the same verdicts
 AsIsOK == Set =>
   \A i \in DOMAIN u.docs :
-     LET r == RefVerdict(u, u.docs[i]) IN
+     LET r == DevVerdict(u, u.docs[i], Devs) IN
      r # Un => (ImplAccepts(u, u.docs[i], Devs) <=> r = Acc)
 
 \* vacuity guards: both verdicts occur for this unit family (checked over all units by TLC's coverage)
